@@ -142,9 +142,9 @@ def run(tier):
         wd = tempfile.mkdtemp(prefix="w-", dir=root)
         if rec["cli"] and var % 2 == 0 and c.prepare is None:
             # an earlier run with the same -o left longer files behind (and one more than this cluster has members)
-            def prep(d, n=rec["n"]):
+            def prep(d, n=rec["n"], on=c.out_name):
                 for i in range(n):
-                    with open(os.path.join(d, "out.log.%d" % i), "wb") as f:
+                    with open(os.path.join(d, on + ".%d" % i), "wb") as f:
                         f.write(b'{"stale":"line written by an earlier run with the same --outputFile"}\n' * (3000 if i % 2 == 0 else 1))
             c.prepare = prep
         obs = ar.run_case(b, c, wd, flags=flags, start=window[0], end=window[1], encrypt=enc)
